@@ -25,6 +25,9 @@ def declare(c):
     c.rule('C08.R3', 'sibling agreement: G20/G21 set the same factor on X, Y, Z, E and the feed rate; G90/G91 set X, Y, Z '
                      '(and E iff the setting says so)', floor=6)
     c.rule('C08.R4', 'axis fields are written only inside AxisPosition (plus the reviewed exceptions)', floor=5)
+    c.rule('C08.R6', 'every decision taken on a handler path is invariant under the unit re-encoding: its polynomial is '
+                     'homogeneous when file-unit quantities scale by 1/t and unit factors by t (no file-unit length is '
+                     'compared with an absolute constant)', floor=100)
     c.rule('C08.R5', 'the arc handlers hand processLinearMoves coordinates that are valid in the current positioning mode', floor=2)
 
 
@@ -148,6 +151,8 @@ def native_args_rule(ctx, I):
 
 def sibling_paths(col, gcode, paths, I):
     declare(col)
+    if gcode in ('G0', 'G1', 'G2', 'G3'):
+        homogeneity_paths(col, gcode, paths, I)
     for p in paths:
         f = Facts(p, I)
         if f.raised:
@@ -200,6 +205,43 @@ def sibling_paths(col, gcode, paths, I):
                                        detail={'entry': p.entry})
 
 
+def unit_weight(I, name):
+    """scaling degree of a symbol under re-encoding with factor t: file-unit quantities -1, unit factors +1, native 0"""
+    if name.endswith('.unitMultiplier') or name.endswith('feedRateUnitMultiplier'):
+        return 1
+    if name.startswith('p:') or ('@GcodeHandlers' in name and '.ret[' in name):
+        return -1
+    info = I.syminfo.get(name, {})
+    if info.get('kind') == 'app':
+        ws = set()
+        for a in info.get('args', ()):
+            if isinstance(a, Num):
+                for m in a.p.t:
+                    ws.add(sum(e * unit_weight(I, s2) for s2, e in m))
+        if len(ws) == 1 and info.get('fn') in ('hypot', 'abs', 'sqrt', 'max', 'min', 'ceil', 'floor', 'int'):
+            w = ws.pop()
+            return w // 2 if info.get('fn') == 'sqrt' and w % 2 == 0 else w
+        return 0
+    return 0
+
+
+def homogeneity_paths(col, gcode, paths, I):
+    for p in paths:
+        for k, d in p.st.dom.items():
+            if k[0] != 'sgn' or len(d) == 3:
+                continue
+            poly = Poly(dict(k[1]))
+            degs = set()
+            for m in poly.t:
+                degs.add(sum(e * unit_weight(I, s2) for s2, e in m))
+            col.instance('C08.R6', (gcode, repr(poly)[:60]))
+            if len(degs) > 1:
+                col.report('C08.R6', 'GcodeHandlers.handleGcode', 'decision on %s' % repr(poly)[:120],
+                           'a branch of %s compares quantities that scale differently under a change of units (for example a '
+                           'file-unit length against an absolute constant): the same physical path decides differently in '
+                           'inches and millimetres' % gcode, detail={'entry': p.entry})
+
+
 def ownership_rule(ctx):
     m = ctx.model
     reviewed = {
@@ -223,7 +265,7 @@ def run(ctx, tier):
     laws(ctx, I)
     I2 = make_interp(ctx.model)
     native_args_rule(ctx, I2)
-    run_path_rules(ctx, __name__, 'sibling_paths', ['G20', 'G21', 'G90', 'G91', 'G2', 'G3'], unroll=1)
+    run_path_rules(ctx, __name__, 'sibling_paths', ['G20', 'G21', 'G90', 'G91', 'G0', 'G1', 'G2', 'G3'], unroll=1)
     ownership_rule(ctx)
     ctx.assume('exact real arithmetic; translation of path and regions by a common vector is pure geometry and not decided')
     ctx.assume('firmware convention: native = logical*unit + G92 offset + M206 offset')
